@@ -230,7 +230,9 @@ def pipeline_cases(draw):
     return dict(kind="pipeline", fname=draw(IDENT), names=draw(st.lists(IDENT, min_size=k, max_size=k, unique=True)),
                 games=[draw(one_game()) for _ in range(k)], styles=[draw(st.integers(0, 3)) for _ in range(k)],
                 quote=draw(st.sampled_from(("'", '"'))), comments=draw(st.booleans()),
-                subprocess=draw(st.integers(0, 39)) == 7)
+                subprocess=draw(st.integers(0, 39)) == 7,
+                # the -f argument is a symbolic link (another name in inputs/) to the real file
+                symlink=draw(st.one_of(st.none(), st.none(), IDENT)))
 
 
 FLOATS = st.one_of(st.floats(allow_nan=False, allow_infinity=False, width=64), st.sampled_from((float("inf"), 0.1, 1 / 3, 1e-300, -0.0)),
@@ -387,7 +389,13 @@ def check_pipeline(case, v):
         return res
     cwd, argv = os.getcwd(), sys.argv
     os.chdir(d)
-    sys.argv = ["conditionalrewards.py", "-f", f"inputs/{case['fname']}.py", "-s"]
+    used = case["fname"]
+    link = case.get("symlink")
+    if link and link != case["fname"]:
+        os.symlink(case["fname"] + ".py", os.path.join("inputs", link + ".py"))
+        used = link
+        v.cls("input_is_a_symlink")
+    sys.argv = ["conditionalrewards.py", "-f", f"inputs/{used}.py", "-s"]
     cr.run_games = spy
     try:
         try:
@@ -410,8 +418,9 @@ def check_pipeline(case, v):
         sys.argv = argv
         os.chdir(cwd)
     outs = sorted(os.listdir(os.path.join(d, "outputs")))
-    if outs != [case["fname"] + ".txt"]:
-        v.fail("report-name", f"input inputs/{case['fname']}.py produced outputs {outs}")
+    if outs != [used + ".txt"]:
+        v.fail("report-name", f"input inputs/{used}.py" + (f" (a symbolic link to {case['fname']}.py)" if used != case["fname"] else "")
+               + f" produced outputs {outs}")
         return
     with open(os.path.join(d, "outputs", outs[0])) as f:
         rep = f.read()
@@ -439,7 +448,7 @@ def check_pipeline(case, v):
         os.remove(os.path.join(d, "outputs", outs[0]))
         env = dict(os.environ, PYTHONPATH=r.path, PYTHONDONTWRITEBYTECODE="1")
         p = subprocess.run([sys.executable, os.path.join(r.path, "conditionalrewards.py"), "-f",
-                            f"inputs/{case['fname']}.py", "-s"], cwd=d, env=env, capture_output=True, text=True,
+                            f"inputs/{used}.py", "-s"], cwd=d, env=env, capture_output=True, text=True,
                            timeout=300)
         if p.returncode != 0:
             v.fail("cli-fails", f"python conditionalrewards.py -f ... -s exited {p.returncode}: {p.stderr[-200:]}")
